@@ -22,6 +22,7 @@ package forwarding
 
 import (
 	"encoding/hex"
+	"errors"
 	"fmt"
 	"strconv"
 	"strings"
@@ -124,6 +125,17 @@ func (a *HypAttributes) Validate() error {
 	if a.DestinationDomain == HypNobleMainnetDomain ||
 		a.DestinationDomain == HypNobleTestnetDomain {
 		return fmt.Errorf("destination domain %d is a Noble domain", a.DestinationDomain)
+	}
+
+	// NOTE: the Hyperlane module converts the max fee into sdk.Coins, which panics on
+	// invalid coins. Zero coins are dropped by that conversion before being validated.
+	if a.MaxFee.Amount.IsNil() {
+		return errors.New("max fee amount must be set")
+	}
+	if !a.MaxFee.Amount.IsZero() {
+		if err := a.MaxFee.Validate(); err != nil {
+			return errorsmod.Wrap(err, "invalid max fee")
+		}
 	}
 
 	if a.CustomHookMetadata != "" {
